@@ -2,7 +2,7 @@ From Coq Require Import ZArith List Bool String.
 From Coq Require Import ExtrOcamlBasic.
 From Falcon.lib Require Import Wire PyStr.
 From Falcon.C14 Require Import Spec.
-From Falcon.C13 Require Import Model Spec.
+From Falcon.C13 Require Import Model ModelReaders Spec ModelPart SpecPart.
 Import ListNotations.
 Open Scope Z_scope.
 
@@ -57,10 +57,32 @@ Definition d_obs (v : val) : part_obs :=
 Definition d_run (v : val) : list part_obs * status :=
   (dlist d_obs (nth_val 0 v), d_status (nth_val 1 v)).
 
+Definition v_ares {A} (f : A -> val) (r : ares A) : val :=
+  match r with AOk a => L [I 0; f a] | AParseError => L [I 1] | ANeed => L [I 2] end.
+
+Definition v_view (v : view) : val :=
+  L [v_ares vstr (v_ctype v); v_ares (vopt vstr) (v_name v); v_ares (vopt vstr) (v_filename v)].
+
+Definition d_headers (v : val) : headers :=
+  dlist (fun p => (dstr (nth_val 0 p), dstr (nth_val 1 p))) v.
+
+Definition d_field (v : val) : field :=
+  {| f_name := dstr (nth_val 0 v);
+     f_filename := dopt (fun p => (dbool (nth_val 0 p), dstr (nth_val 1 p))) (nth_val 1 v);
+     f_ctype := dopt dstr (nth_val 2 v);
+     f_content := dstr (nth_val 3 v) |}.
+
+Definition v_part (p : part) : val := L [v_headers (p_headers p); vstr (p_content p)].
+
 (* ops: 0 parse        [0; cs; cfg; boundary; script; body]            -> run
         1 encode       [1; parts; boundary; pre; epi; fin]             -> body
         2 expected     [2; cs; cfg; parts; script]                         -> run
         3 wf_form      [3; cs; boundary; pre; parts]                   -> bool
+        5 parse through the sync reader model   [5; cs; cfg; boundary; script; body; schedule]
+        6 parse through the async reader model  [6; cs; cfg; boundary; script; chunks]
+        7 BodyPart attributes of a header dictionary  [7; headers] -> [content_type; name; filename]
+        8 secure_filename  [8; filename; NFKD(filename)]
+        9 fields -> parts  [9; boundary; fields] -> [[part; wf_field]]
         4 oracles      [4; cs; cfg; parts; script; observed]               -> [roundtrip ok; no crash] *)
 Definition run (v : val) : val :=
   match v with
@@ -75,6 +97,16 @@ Definition run (v : val) : val :=
   | L [I 4; cs; c; ps; script; obs] =>
     L [vbool (oracle_roundtrip (dnat cs) (d_cfg c) (dlist d_part ps) (dlist d_action script) (d_run obs));
        vbool (oracle_no_crash (d_run obs))]
+  | L [I 5; cs; c; b; script; body; sched] =>
+    v_run (parse_form_sync (dnat cs) (d_cfg c) (dstr b) (dlist d_action script) (dstr body) (dlist dnat sched))
+  | L [I 6; cs; c; b; script; chunks] =>
+    let cl := dlist dstr chunks in
+    let fuel := (List.length cl + 20)%nat in
+    v_run (parse_form_async (dnat cs) fuel (d_cfg c) (dstr b) (dlist d_action script) cl)
+  | L [I 7; hs] => v_view (view_of (d_headers hs))
+  | L [I 8; fname; nfkd] => vopt vstr (secure_filename (fun _ => dstr nfkd) (dstr fname))
+  | L [I 9; b; fs] =>
+    vlist (fun f => L [v_part (field_part f); vbool (wf_field (dstr b) f)]) (dlist d_field fs)
   | _ => L [I (-1)]
   end.
 
